@@ -60,6 +60,15 @@ def oracle(tier):
                     again = pytrs.TRS(obj.trs)
                     if again.trs != obj.trs or again != obj or hash(again) != hash(obj):
                         fail('idempotent', obj.trs, again.trs, obj.trs)
+                    # equal strings compare and hash equal however the object came to hold its string: built empty and set, or re-pointed from another value
+                    n += 1
+                    late = pytrs.TRS()
+                    late.set_twprgesec(t, g, sc, ns, ew)
+                    moved = pytrs.TRS('8s102e03')
+                    moved.trs = want
+                    for how, o3 in (('set_twprgesec on an empty TRS', late), ('.trs reassigned', moved)):
+                        if o3.trs != obj.trs or o3 != obj or hash(o3) != hash(obj) or o3 not in {obj}:
+                            fail('equal_strings_hash_equal', {'trs': want, 'how': how}, [o3.trs, o3 == obj, hash(o3) == hash(obj)], [want, True, True])
     # strictness + idempotence over mutations
     strings = []
     for v in corr.valid_strings():
